@@ -13,26 +13,26 @@ import (
 
 // Opts steer the document generator.
 type Opts struct {
-	MaxRecs       int      // 0 = default 6
-	MinRecs       int      // default 0
-	MaxEntries    int      // default 5
-	Near          *ref.Date // if set, most dates lie within a few days of this date
-	NearSpread    int      // days around Near (default 3)
-	Sorted        bool     // ascending dates
-	NoDupDates    bool
-	Unicode       bool // non-ASCII text in summaries
-	Tags          int  // 0 none, 1 some, 2 many
-	Hostile       bool // hostile but admissible layout (whitespace-only lines, mixed line endings, missing final newline, leading/trailing blank lines)
-	OpenRanges    int  // 0 none, 1 sometimes (at most one per record)
-	LookAlikes    bool // summaries that look like entries, dates, placeholders, printf verbs
-	JSONHostile   bool // characters JSON must escape
-	TrailingBlank bool // summaries may end in / consist of blanks
-	IDs           bool // every record/entry summary carries a unique id token
-	MaxHours      int  // bound for duration entries (default 30)
-	YearLo, YearHi int // date range (default 0..9999 boundary-biased)
-	PlainLayout   bool // LF, final newline, single blank separators
-	Should        int  // 0 sometimes, 1 never, 2 always
-	Short         bool // short summaries (small texts for boundary sweeps)
+	MaxRecs        int       // 0 = default 6
+	MinRecs        int       // default 0
+	MaxEntries     int       // default 5
+	Near           *ref.Date // if set, most dates lie within a few days of this date
+	NearSpread     int       // days around Near (default 3)
+	Sorted         bool      // ascending dates
+	NoDupDates     bool
+	Unicode        bool // non-ASCII text in summaries
+	Tags           int  // 0 none, 1 some, 2 many
+	Hostile        bool // hostile but admissible layout (whitespace-only lines, mixed line endings, missing final newline, leading/trailing blank lines)
+	OpenRanges     int  // 0 none, 1 sometimes (at most one per record)
+	LookAlikes     bool // summaries that look like entries, dates, placeholders, printf verbs
+	JSONHostile    bool // characters JSON must escape
+	TrailingBlank  bool // summaries may end in / consist of blanks
+	IDs            bool // every record/entry summary carries a unique id token
+	MaxHours       int  // bound for duration entries (default 30)
+	YearLo, YearHi int  // date range (default 0..9999 boundary-biased)
+	PlainLayout    bool // LF, final newline, single blank separators
+	Should         int  // 0 sometimes, 1 never, 2 always
+	Short          bool // short summaries (small texts for boundary sweeps)
 }
 
 // LineKind classifies a physical line of a generated document.
